@@ -95,6 +95,10 @@ def cli_cases(ctx):
                     ov["env"]["E_S"] = "e%d" % k
                 if rng.random() < 0.5:
                     ov["env"]["E_TASK"] = rng.choice(["st%d" % k, ""])
+                if rng.random() < 0.4:          # a name that taskctl's own environment defines too
+                    ov["env"]["E_PARENT"] = "sp%d" % k
+                if rng.random() < 0.2:          # this stage switches the shared task off through the task's condition (which reads E_S)
+                    ov["env"]["E_S"] = "skipme"
                 st["env"] = ov["env"]
             if rng.random() < 0.6:
                 ov["vars"] = {}
@@ -110,14 +114,15 @@ def cli_cases(ctx):
                 st["depends_on"] = ["s%d" % rng.randrange(k)]
             stages.append(st)
             ovs.append(ov)
-        cmd = ('echo "E_TASK=${E_TASK-UNSET}|E_S=${E_S-UNSET}|VV=${VV-UNSET}|V_TASK={{.V_TASK}}|VS={{index . \"VS\"}}|PWD=$(pwd)" > "$PROJ/u.{{index . \".Stage.Name\"}}"')
-        doc = {"tasks": {"t": {"command": [cmd], "env": {"E_TASK": "task"}, "variables": {"V_TASK": "tvar"}, "variations": [{"VV": "{{.V_TASK}}"}]}}, "pipelines": {"p": stages}}
+        cmd = ('echo "E_TASK=${E_TASK-UNSET}|E_S=${E_S-UNSET}|E_PARENT=${E_PARENT-UNSET}|VV=${VV-UNSET}|V_TASK={{.V_TASK}}|VS={{index . \"VS\"}}|PWD=$(pwd)" > "$PROJ/u.{{index . \".Stage.Name\"}}"')
+        doc = {"tasks": {"t": {"command": [cmd], "env": {"E_TASK": "task"}, "variables": {"V_TASK": "tvar"}, "variations": [{"VV": "{{.V_TASK}}"}],
+                               "condition": 'test "${E_S-}" != skipme'}}, "pipelines": {"p": stages}}
         if rng.random() < 0.5:          # the task runs in a NAMED context: one object shared by all its uses in the process
             doc["contexts"] = {"cx": {"env": {"CXE": "1"}}}
             doc["tasks"]["t"]["context"] = "cx"
         order = rng.choice([["p", "t"], ["t", "p", "t"]])
         jobs.append({"id": len(jobs), "files": {"cfg.json": clilib.jcfg(doc)}, "argv": ["-c", "cfg.json", "--raw"] + order, "keep": ["u.s%d" % k for k in range(n)] + ["u.<no value>"],
-                     "ovs": ovs, "kind": "cli", "order": order})
+                     "env": {"E_PARENT": "outer"}, "ovs": ovs, "kind": "cli", "order": order})
     return jobs
 
 
@@ -138,6 +143,14 @@ def run_cli_part(ctx, res):
         I = Intern()
         proj_dir = None
         uses = [("u.s%d" % k, "(Stage 0 %s)" % coq_ov(ov, I)) for k, ov in enumerate(j["ovs"])] + [("u.<no value>", "(Direct 0)")]
+        # a use whose own environment makes the task's condition false is skipped (and only such a use)
+        off = {"u.s%d" % k for k, ov in enumerate(j["ovs"]) if (ov["env"] or {}).get("E_S") == "skipme"}
+        wrong = [fn for fn, _ in uses if (fn in off) != (not (r["files"].get(fn) or "").strip())]
+        if wrong:
+            res.violations.append({"class": None, "what": "the task's condition reads the use's own environment: a use was skipped / run according to ANOTHER use's environment (%s)" % ",".join(wrong),
+                                   "case": case, "observed": r["files"]})
+            continue
+        uses = [u for u in uses if u[0] not in off]
         for fn, use in uses:
             txt = (r["files"].get(fn) or "").strip()
             d = dict(x.split("=", 1) for x in txt.split("|") if "=" in x)
@@ -149,12 +162,13 @@ def run_cli_part(ctx, res):
             if not d:
                 res.violations.append({"class": None, "what": "a use of the shared task left no record (%s)" % fn, "case": case, "observed": r["files"]})
                 break
-            env = {k: d[k] for k in ("E_TASK", "E_S") if d.get(k, "UNSET") != "UNSET"}
+            env = {k: d[k] for k in ("E_TASK", "E_S", "E_PARENT") if d.get(k, "UNSET") != "UNSET"}
             vars_ = {k: d[k] for k in ("V_TASK", "VS") if d.get(k, "<no value>") != "<no value>"}
             pwd = "" if d.get("PWD") == proj_dir else d.get("PWD", "?")
             k = len(items)
             index[k] = (case, fn, r["files"])
-            t = coq_settings({"env": {"E_TASK": "task"}, "vars": {"V_TASK": "tvar"}, "dir": ""}, I)
+            # (the value taskctl's own environment gives E_PARENT is the lowest layer: for the model it is part of the task's own settings)
+            t = coq_settings({"env": {"E_TASK": "task", "E_PARENT": "outer"}, "vars": {"V_TASK": "tvar"}, "dir": ""}, I)
             items.append("(%d%%N, settings_equiv (expected (fun _ => %s) %s) %s && %s)" % (
                 k, t, use, coq_settings({"env": env, "vars": vars_, "dir": pwd}, I), vlib.cbool(d.get("VV") == "{{.V_TASK}}")))
     bad = set()
